@@ -33,6 +33,7 @@ Inductive aop :=
 | AGetVal (p : path)
 | ADelete (q : path)
 | AQuery (q : path)             (* Walk = AQuery [] *)
+| AQueryErr (q : path)          (* Query / Walk / WalkSorted aborted by an error of its visitor *)
 | AHUpd (p : path) (v : Z)      (* Leaf.Update through a handle obtained for path p *)
 | AHVal (p : path).             (* Leaf.Value through such a handle *)
 
@@ -42,6 +43,7 @@ Inductive ares :=
 | RsPaths (l : list path)
 | RsLeaves (l : list (path * Z))
 | RsUnit
+| RsQErr                        (* the visitor's error came back *)
 | RsPanic
 | RsHang.
 
@@ -68,6 +70,8 @@ Definition spec_step (f : flat) (o : aop) (r : ares) : list flat :=
       end
   | AHVal _, RsVal _ => [f]       (* a retained handle may return any earlier value *)
   | AQuery _, RsLeaves _ => [f]   (* judged by the weak specification below *)
+  | AQueryErr _, RsQErr => [f]    (* an aborted query reports nothing *)
+  | AQueryErr _, RsLeaves _ => [f] (* fewer leaves than the visitor tolerates: it completed *)
   | _, _ => []
   end.
 
@@ -77,6 +81,7 @@ Definition spec_pure (o : aop) (r : ares) : bool :=
   | AGetVal _, _ => true
   | AHVal _, _ => true
   | AQuery _, _ => true
+  | AQueryErr _, _ => true
   | AAdd _ _, RsAdd false => true
   | ADelete _, RsPaths [] => true
   | _, _ => false
@@ -176,6 +181,7 @@ Inductive sop :=
 | SAdd (p : path) (v : Z)
 | SGetVal (p : path)
 | SQuery (q : path)
+| SQueryErr (q : path) (k : nat)  (* Query whose visitor returns an error at its (k+1)-th call *)
 | SDelete (q : path)
 | SHold (p : path) (v : Z).     (* Leaf.Update on the leaf at p, paused inside its critical section *)
 
@@ -189,7 +195,8 @@ Definition cop_of (h : heap) (o : sop) : cop :=
   match o with
   | SAdd p v => CAdd p v
   | SGetVal p => CGetVal p
-  | SQuery q => CQuery q
+  | SQuery q => CQuery q None
+  | SQueryErr q k => CQuery q (Some k)
   | SDelete q => CDelete q
   | SHold p v =>
       (* the harness takes handles to leaves only (a handle to a branch is
@@ -357,6 +364,7 @@ Definition res_of (p : pc) : ares :=
   | PDone (XLeaves l) => RsLeaves (sort_leaves l)
   | PDone (XPaths l) => RsPaths (sort_paths l)
   | PDone XUnit => RsUnit
+  | PDone (XFail _) => RsQErr
   | _ => RsHang
   end.
 
@@ -368,6 +376,7 @@ Definition ares_eqb (a b : ares) : bool :=
   | RsPaths x, RsPaths y => list_eqb path_eqb (sort_paths x) (sort_paths y)
   | RsLeaves x, RsLeaves y => list_eqb leaf_eqb (sort_leaves x) (sort_leaves y)
   | RsUnit, RsUnit => true
+  | RsQErr, RsQErr => true
   | _, _ => false
   end.
 
@@ -409,6 +418,7 @@ Definition aop_of (o : sop) : aop :=
   | SAdd p v => AAdd p v
   | SGetVal p => AGetVal p
   | SQuery q => AQuery q
+  | SQueryErr q _ => AQueryErr q
   | SDelete q => ADelete q
   | SHold p v => AHUpd p v
   end.
@@ -435,7 +445,7 @@ Definition handleish (o : sop) : bool :=
   match o with SHold _ _ | SGetVal _ => true | _ => false end.
 
 Definition sop_path (o : sop) : path :=
-  match o with SAdd p _ | SGetVal p | SQuery p | SDelete p | SHold p _ => p end.
+  match o with SAdd p _ | SGetVal p | SQuery p | SQueryErr p _ | SDelete p | SHold p _ => p end.
 
 Definition coupling_ok (prog : list sop) (o : sobs) : bool :=
   let idx := seq 0 (List.length prog) in
